@@ -193,6 +193,10 @@ def impl_eval(case):
                             case.get('pattern', 'for'))
     body = '|'.join(iu.dict_wire({kk: v for kk, v in r.items() if not kk.startswith('DE43_')}, sort=True) for r in got)
     why = None
+    # before the error is looked at: ANOTHER reader in the same process reads another (good) file to its end — what an
+    # error object says about record k is its own, whatever is read afterwards and by whom
+    other_file = b''.join(struct.pack('>I', len(r)) + r for r in (good_record(7, codec), good_record(9, codec))) + b'\x00' * 4
+    read_all(mciipm.IpmReader(io.BytesIO(other_file), encoding=codec, blocked=False))
     expected_prefix = [iso8583.loads(r, encoding=codec, **kw) for r in recs[:k - 1]]
     if got != expected_prefix:
         why = f'delivered {len(got)} records before the error; records 1..{k - 1} were expected unchanged'
@@ -221,8 +225,15 @@ def impl_eval(case):
                 open(path, 'wb').write(data)
                 con = io.StringIO()
                 with contextlib.redirect_stdout(con):
-                    rc = mci_ipm_to_csv.cli_run(in_filename=path, out_filename=path + '.csv', in_encoding=codec,
-                                                no1014blocking=not case['b'])
+                    # (every other case with the tool's --debug option: more logging, the same report and return code)
+                    dbg = {'debug': True} if (case['n'] + case['k'] + case['b']) % 2 else {}
+                    try:
+                        rc = mci_ipm_to_csv.cli_run(in_filename=path, out_filename=path + '.csv', in_encoding=codec,
+                                                    no1014blocking=not case['b'], **dbg)
+                    finally:
+                        if dbg:
+                            import logging
+                            logging.getLogger().setLevel(logging.WARNING)
                 if rc != -1:
                     why = f'mci_ipm_to_csv returned {rc!r} for a file whose record {k} is faulty (expected -1)'
                 elif f'Error detected in record {k}\n' not in con.getvalue():
